@@ -66,6 +66,11 @@ def run(tier, seed):
     st["states"] += cst["states"]
     st["transitions"] += cst["transitions"]
     viol = mc_viol + viol
+    # story: a fresh key is deleted while the write-behind worker has its first write in hand
+    import seqengine as _sq
+    _sv, _sn, _sst = _sq.run_stories(PROP, fxv, rd, "inflightstory", 2 if tier == "quick" else 10,
+                                     "an acknowledged delete (flush Ok, clean close) is not durable: the key is back after the reopen")
+    viol = viol + _sv
     return {"level": "model_checking", "coverage": cov, "violations": viol,
             "assumptions": ["device observer sees every write and fsync (checked by the byte-for-byte replay in selftest)",
                             "block-granular loss/reordering of un-synced writes; journal slots and metadata copies atomic",
@@ -73,4 +78,7 @@ def run(tier, seed):
 
 
 def replay(path):
+    import seqengine as _sq
+    if _sq.is_story(path):
+        return _sq.replay_story(PROP, path)
     return ce.replay(PROP, path, INV)
